@@ -1954,7 +1954,14 @@ class Evaluator:
         pos = [x.arg for x in a.posonlyargs + a.args]
         defaults = dict(zip(pos[len(pos) - len(a.defaults):], a.defaults)) if a.defaults else {}
         defaults.update({k.arg: d for k, d in zip(a.kwonlyargs, a.kw_defaults) if d is not None})
-        cands = {n: d.value for n, d in defaults.items() if isinstance(d, ast.Constant)}
+        cands = {n: Const(d.value) for n, d in defaults.items() if isinstance(d, ast.Constant)}
+        # a default that merely names a constant of a module (uuid.NAMESPACE_DNS, a module-level name): its value at definition time
+        for n, d in defaults.items():
+            if n not in cands and isinstance(d, (ast.Name, ast.Attribute)) and not any(isinstance(x, ast.Call) for x in ast.walk(d)):
+                try:
+                    cands[n] = self.eval_expr(d, State(), Frame(None, fi.module, None, 0))
+                except Exception:
+                    pass
         if cands:
             calls = self.__dict__.get("_all_calls")
             if calls is None:
@@ -1970,7 +1977,9 @@ class Evaluator:
                 self._all_calls = calls
             decos = [getattr(d, "id", getattr(d, "attr", None)) for d in fi.node.decorator_list]
             bound = 1 if fi.cls is not None and "staticmethod" not in decos else 0
-            names = [fi.name] + ([fi.cls.name, "cls", "super"] if fi.name == "__init__" and fi.cls is not None else [])
+            names = list(dict.fromkeys([fi.name, getattr(fi.node, "name", fi.name)])) + ([fi.cls.name, "cls", "super"] if fi.name == "__init__" and fi.cls is not None else [])
+            if not any(calls.get(nm) for nm in names):
+                cands = {}   # no call of this function is visible under its name(s): nothing is known about what callers supply
             # the function taken as a value (callback, functools.partial, table entry) may be called with anything
             refs = self.__dict__.get("_value_refs")
             if refs is None:
@@ -1993,8 +2002,18 @@ class Evaluator:
                     if any(isinstance(x, ast.Starred) for x in c.args) or any(k.arg is None for k in c.keywords):
                         cands = {}
                         break
+                    alias = getattr(fi, "kw_alias", None) or {}
+                    known = set(pos) | {x.arg for x in a.kwonlyargs}
                     for k in c.keywords:
-                        cands.pop(k.arg, None)
+                        kn = alias.get(k.arg, k.arg)
+                        if kn not in known:
+                            # a keyword this function does not declare (a parameter renamed at the call sites, another function of
+                            # the same name): nothing can be said about which parameters are supplied
+                            cands = {}
+                            break
+                        cands.pop(kn, None)
+                    if not cands:
+                        break
                     for n in list(cands):
                         if n in pos and len(c.args) > pos.index(n) - bound:
                             cands.pop(n, None)
@@ -2016,7 +2035,7 @@ class Evaluator:
         # an optional parameter with a constant default that no call in the analysed packages supplies always holds that default
         # inside the program (a parameter added for callers that do not exist yet does not change what the tool does)
         for n_, v_ in self.unset_optional_params(fi).items():
-            env[n_] = Const(v_)
+            env[n_] = v_
         if args:
             env.update(args)
         st = State(env, heap or {})
